@@ -156,8 +156,8 @@ func (o *OracleC09) AfterBlock(c *Chain, b *BlockCtx) []*Violation {
 		power uint64
 		block uint64
 	}
-	exp := map[string]*big.Rat{}       // per delegator, exact when derivable
-	expRep := map[string]*big.Rat{}    // per reporter total
+	exp := map[string]*big.Rat{}            // per delegator, exact when derivable
+	expRep := map[string]*big.Rat{}         // per reporter total
 	delegOf := map[string]map[string]bool{} // reporter -> delegators in its snapshots
 	multiSnap := map[string]bool{}
 	addExp := func(m map[string]*big.Rat, k string, x *big.Rat) {
